@@ -87,6 +87,70 @@ def builtinPopcount (x : BitVec w) : BitVec 32 := BitVec.ofNat 32 (popNat x)
 /-- `__builtin_clz(0)` and `__builtin_ctz(0)` are undefined -/
 def builtinNonZero (x : BitVec w) : Bool := x != 0#w
 
+
+/-! ### arrays, pointers (stage 2 of the translator, NOTES_cfun2.md)
+
+An array the C function reaches through a pointer parameter (or a global / local array) is a list: `List UInt8` for
+8-bit elements, `List (BitVec w)` otherwise.  A pointer VALUE is a `Nat`: the offset, in elements, from the start of
+the one array it was derived from (the translator rejects programs in which a pointer variable can point into two
+arrays).  Reading outside the list makes `f_defined` false (`inb`); the value functions are total (`0` outside).
+Forming a pointer beyond the end of its array is not counted as undefined (`p + 8 <= end` with fewer than 8 bytes
+left — strictly UB by C11 6.5.6p8, universal in practice, invisible on a flat address space); moving a pointer
+before the start of its array is. -/
+
+/-- `a[i]` of a byte array -/
+def rd8 (a : List UInt8) (i : Nat) : BitVec 8 := (a.getD i 0).toBitVec
+/-- `a[i]` of an array of `w`-bit integers -/
+def rd (a : List (BitVec w)) (i : Nat) : BitVec w := a.getD i 0#w
+/-- the `n` elements from offset `i` on lie inside the array -/
+def inb (a : List α) (i n : Nat) : Bool := decide (i + n ≤ a.length)
+
+/-- little-endian loads from a byte array (the host is little-endian; the translator checks) -/
+def ld16le (a : List UInt8) (i : Nat) : BitVec 16 :=
+  (rd8 a i).setWidth 16 ||| ((rd8 a (i + 1)).setWidth 16 <<< 8)
+def ld32le (a : List UInt8) (i : Nat) : BitVec 32 :=
+  (rd8 a i).setWidth 32 ||| ((rd8 a (i + 1)).setWidth 32 <<< 8) ||| ((rd8 a (i + 2)).setWidth 32 <<< 16) |||
+  ((rd8 a (i + 3)).setWidth 32 <<< 24)
+def ld64le (a : List UInt8) (i : Nat) : BitVec 64 :=
+  (rd8 a i).setWidth 64 ||| ((rd8 a (i + 1)).setWidth 64 <<< 8) ||| ((rd8 a (i + 2)).setWidth 64 <<< 16) |||
+  ((rd8 a (i + 3)).setWidth 64 <<< 24) ||| ((rd8 a (i + 4)).setWidth 64 <<< 32) |||
+  ((rd8 a (i + 5)).setWidth 64 <<< 40) ||| ((rd8 a (i + 6)).setWidth 64 <<< 48) |||
+  ((rd8 a (i + 7)).setWidth 64 <<< 56)
+
+/-- `a[i] = v` on a byte array (functional update; outside the array: no change, and `f_defined` is false) -/
+def wr8 (a : List UInt8) (i : Nat) (v : BitVec 8) : List UInt8 := a.set i (UInt8.ofBitVec v)
+/-- `a[i] = v` on an array of `w`-bit integers -/
+def wr (a : List (BitVec w)) (i : Nat) (v : BitVec w) : List (BitVec w) := a.set i v
+
+/-- `p + k` for a signed `k` on offsets; meaningful when `paddOk` -/
+def padd (off : Nat) (k : Int) : Nat := (Int.ofNat off + k).toNat
+/-- the pointer does not move before the start of its array -/
+def paddOk (off : Nat) (k : Int) : Bool := decide (0 ≤ Int.ofNat off + k)
+
+/-- the array `a` after a callee that received `a + off` has returned that part as `part` -/
+def splice (a : List α) (off : Nat) (part : List α) : List α := a.take off ++ part
+
+/-- `memset(a + off, 0, n * sizeof a[0])`: `n` elements from `off` on become `v` -/
+def fill (a : List α) (off n : Nat) (v : α) : List α :=
+  a.take off ++ List.replicate n v ++ a.drop (off + n)
+
+
+/-! ### values crossing the C / Lean boundary in the translator self-check (stage 2) -/
+
+/-- an integer bit pattern, or an array of them -/
+inductive Val where
+  | n (v : Nat)
+  | a (xs : List Nat)
+deriving Repr, BEq, Inhabited
+
+/-- kind of an argument / result component: an integer of `w` bits (`w = 0`: `_Bool`), or an array of `w`-bit elements -/
+inductive Kind where
+  | int (w : Nat) (signed : Bool)
+  | arr (w : Nat)
+  /-- a second pointer into the array parameter `base` (the `end` of a `(p, end)` pair): an offset in elements -/
+  | off (base : String)
+deriving Repr, BEq, Inhabited
+
 /-! ### how the driver / theorems read a value -/
 
 /-- the mathematical value of a `BitVec` read as a signed C integer -/
